@@ -526,6 +526,40 @@ vmax(const std::vector<double>& v)
   return m;
 }
 
+//! triage aid: forward projection of `lam` with a FRESH projector pair configured as in the case (symmetries, cache)
+//! against the explicit matrix; returns the maximal difference relative to the maximal projection and describes the bin
+inline double
+projector_vs_explicit(const Fixture& F, const std::vector<double>& lam, std::string& where)
+{
+  shared_ptr<ProjMatrixByBin> m = make_case_matrix(F.mopts, F.sym, F.cache);
+  ProjectorByBinPairUsingProjMatrixByBin pair(m);
+  pair.set_up(F.pdi, F.image);
+  ProjDataInMemory out(F.exam, F.pdi);
+  shared_ptr<target_type> im(F.image->get_empty_copy());
+  const auto& P = F.P;
+  for (int z = P.imin[1]; z <= P.imax[1]; ++z)
+    for (int y = P.imin[2]; y <= P.imax[2]; ++y)
+      for (int x = P.imin[3]; x <= P.imax[3]; ++x)
+        (*im)[z][y][x] = float(lam[std::size_t(P.vox_index(z, y, x))]);
+  pair.get_forward_projector_sptr()->forward_project(out, *im);
+  const std::vector<double> got = F.P.projdata_to_vec(out);
+  const std::vector<double> want = F.P.forward(lam);
+  const double scale = vmax(want);
+  double worst = 0;
+  for (std::size_t b = 0; b < want.size(); ++b)
+    {
+      const double d = std::fabs(got[b] - want[b]);
+      if (d > worst)
+        {
+          worst = d;
+          const Bin& bin = F.P.bins[b];
+          where = vf::cat("bin(seg ", bin.segment_num(), ", ax ", bin.axial_pos_num(), ", view ", bin.view_num(), ", tang ", bin.tangential_pos_num(),
+                          "): projector ", got[b], " explicit ", want[b]);
+        }
+    }
+  return scale > 0 ? worst / scale : worst;
+}
+
 //! common geometry generator for C07/C08 (non-TOF, no tilt: budget; TOF sensitivities are C05's subject)
 inline void
 gen_geometry(Src& s, int size, json& c)
